@@ -41,11 +41,18 @@ def main():
             jobs.append((m, unit))
     bad = 0
     before = set(glob.glob(os.path.join(VERIF, "replays", "*")))
+    par = [j for j in jobs if not j[0].get("bounded")]
+    seq = [j for j in jobs if j[0].get("bounded")]      # native builds share one target dir: one at a time
     with cf.ThreadPoolExecutor(max_workers=6) as ex:
-        for (unit, name, res, info) in ex.map(lambda a: run_one(*a), jobs):
+        for (unit, name, res, info) in ex.map(lambda a: run_one(*a), par):
             print("%-12s %-44s %-16s %s" % (unit, name, res, info))
             if res != "caught":
                 bad += 1
+    for j in seq:
+        (unit, name, res, info) = run_one(*j)
+        print("%-12s %-44s %-16s %s" % (unit, name, res, info))
+        if res != "caught":
+            bad += 1
     for f in set(glob.glob(os.path.join(VERIF, "replays", "*"))) - before:
         os.remove(f)
     print("%d mutations, %d not caught" % (len(jobs), bad))
